@@ -227,7 +227,17 @@ type recProc struct {
 }
 
 //go:norace
-func (p *recProc) OnStart(context.Context, sdktrace.ReadWriteSpan) {}
+func (p *recProc) OnStart(_ context.Context, s sdktrace.ReadWriteSpan) {
+	// A processor may keep the span it is shown at start and end it from another goroutine: for one child
+	// span in three a goroutine does so while Start is still finishing (race oracle; after seeded change
+	// C10-h). Child spans are not part of the model.
+	if p.idx == 0 && s.Name() == "child" && p.w.sim.Draw(3) == 0 {
+		simrt.Go(simdrv.PtStub, func() {
+			simrt.Yield(simdrv.PtStub)
+			s.End()
+		})
+	}
+}
 
 //go:norace
 func (p *recProc) Shutdown(context.Context) error { return nil }
@@ -315,7 +325,7 @@ func (p *extraProc) ForceFlush(context.Context) error { return nil }
 
 //go:norace
 func (p *extraProc) OnEnd(s sdktrace.ReadOnlySpan) {
-	p.seen[s.Name()]++
+	p.seen[s.SpanContext().SpanID().String()]++ // (by identity: names change and children share one)
 	if i, ok := p.w.spanIdx[s.SpanContext().SpanID()]; ok {
 		if p.bySp == nil {
 			p.bySp = map[int]int{}
